@@ -33,8 +33,8 @@ type c13Scenario struct {
 }
 
 var c13Flavours = []string{
-	"paths", "alias", "unmatched-role", "override-inbound", "explicit", "alias-conflict", "parent-expr", "ipc",
-	"unmatched-channel", "override-outbound", "aggregator-level", "alias-conflict", "unmatched-alias", "alias",
+	"paths", "alias", "unmatched-role", "override-inbound", "explicit", "alias-conflict", "parent-expr", "case-collision",
+	"unmatched-channel", "override-outbound", "aggregator-level", "case-wrong-target", "unmatched-alias", "connect-redeclared",
 	"alias-same-task", "template-connect-without-target", "inbound-explicit", "alias-conflict-twin-ports", "override-inbound", "unmatched-role",
 }
 
@@ -85,6 +85,12 @@ func c13Gen(c *vlib.Ctx, idx int) c13Scenario {
 	wf := fmt.Sprintf("c13w%d", idx)
 	root := &roleSpec{Name: wf, Defaults: []kv{{"hosts", `["host1"]`}, {"deploy_timeout", "60s"}}}
 	sc.Root = root
+	if fl == "connect-redeclared" {
+		return c13GenConnectRedeclared(sc, r)
+	}
+	if fl == "case-collision" {
+		return c13GenCaseCollision(sc, r)
+	}
 	if fl == "alias-conflict-twin-ports" {
 		// Two claimants of one alias on two DIFFERENT hosts, each with exactly one tcp inbound channel and the
 		// same transport: both get their agent's first free port >= 9000, i.e. equal port numbers. The two
@@ -304,6 +310,9 @@ func c13Gen(c *vlib.Ctx, idx int) c13Scenario {
 	case "unmatched-role", "unmatched-channel", "unmatched-alias", "template-connect-without-target":
 		kind := map[string]string{"unmatched-role": "role", "unmatched-channel": "channel", "unmatched-alias": "alias", "template-connect-without-target": "empty-target"}[fl]
 		placeDangling(&sc, r, last, ins, kind)
+	case "case-wrong-target":
+		// an existing role / channel / alias, spelled with the wrong case: matches nothing
+		placeDangling(&sc, r, last, ins, []string{"case-channel", "case-role", "case-alias"}[(idx/len(c13Flavours))%3])
 	case "alias-conflict":
 		// a second task claims an alias that is already taken
 		var first *c13In
@@ -590,6 +599,13 @@ func c13Run(c *vlib.Ctx, idx int) {
 			}
 		}
 	}
+	var boundKeys, aliasKeys []string
+	for k := range boundBy {
+		boundKeys = append(boundKeys, k)
+	}
+	for a := range aliasBy {
+		aliasKeys = append(aliasKeys, "::"+a)
+	}
 	// ---- per task: outbound channels ----
 	for _, tr := range sc.Root.taskRoles() {
 		args := cfgOf[tr.path]
@@ -649,6 +665,12 @@ func c13Run(c *vlib.Ctx, idx int) {
 				c.Inconclusive(fmt.Sprintf("scenario %d: generator error: target %q of %s:%s resolves to no inbound channel", idx, tgt, tr.path, ch.Name))
 				continue
 			}
+			if redeclaredWithOtherTarget(tr, ch.Name) {
+				c.Count("outbound_redeclared_with_other_target", 1)
+			}
+			if hasCaseTwin(key, boundKeys) || (kind == "alias" && hasCaseTwin(tgt, aliasKeys)) {
+				c.Count("outbound_targets_with_case_twin", 1)
+			}
 			cls := kind
 			if b.spec.Target != "" {
 				cls = kind + "+inbound-has-explicit-address"
@@ -673,8 +695,13 @@ func c13Run(c *vlib.Ctx, idx int) {
 					}
 				}
 				class := fmt.Sprintf("address-differs-from-bound/%s/%s", cls, what)
-				if b.spec.Target != "" {
+				switch {
+				case b.spec.Target != "":
 					class = "address-differs-from-bound/inbound-has-explicit-address"
+				case redeclaredWithOtherTarget(tr, ch.Name):
+					class = "address-differs-from-bound/connect-redeclared-nearer"
+				case hasCaseTwin(key, boundKeys) || (kind == "alias" && hasCaseTwin(tgt, aliasKeys)):
+					class = "address-differs-from-bound/target-has-case-twin"
 				}
 				viol("OUTBOUND", class, fmt.Sprintf("task %s: outbound channel %s (target %q) was given %q; the inbound channel %s was told to bind %q on host %s, i.e. %q", tr.path, ch.Name, ch.Target, addr, key, b.addr, b.task.Hostname, want))
 			}
@@ -786,6 +813,20 @@ func placeDangling(sc *c13Scenario, r *rand.Rand, tr *roleSpec, ins []c13In, kin
 		dangling.Target = "::nosuchalias"
 	case "empty-target":
 		dangling.Target = ""
+	case "case-channel":
+		dangling.Target = ins[0].task.path + ":" + strings.ToUpper(ins[0].ch.Name)
+	case "case-role":
+		pth := ins[0].task.path
+		i := strings.LastIndex(pth, ".")
+		dangling.Target = pth[:i+1] + strings.ToUpper(pth[i+1:]) + ":" + ins[0].ch.Name
+	case "case-alias":
+		dangling.Target = ins[0].task.path + ":" + strings.ToUpper(ins[0].ch.Name)
+		for _, in := range ins {
+			if in.ch.Global != "" {
+				dangling.Target = "::" + strings.ToUpper(in.ch.Global)
+				break
+			}
+		}
 	}
 	var chs []chanSpec
 	for i := 0; i < n; i++ {
@@ -851,4 +892,122 @@ func placeDangling(sc *c13Scenario, r *rand.Rand, tr *roleSpec, ins []c13In, kin
 	sc.Fault = "unmatched-" + kind
 	sc.DanglingPos, sc.DanglingDecl, sc.DanglingTask = pos, decl, tr.path
 	sc.Notes = append(sc.Notes, fmt.Sprintf("task %s has %d outbound channels; 'lost' (%s) is the %s one, declared: %s", tr.path, n, kind, pos, decl))
+}
+
+// redeclaredWithOtherTarget: the outbound channel name is declared at two or more role levels of the
+// task's branch with different targets (a child redeclares an inherited channel).
+func redeclaredWithOtherTarget(tr *roleSpec, name string) bool {
+	targets := map[string]bool{}
+	for _, p := range tr.chain() {
+		if ch, ok := kvGetChan(p.Connect, name); ok {
+			targets[resolveTargetExpr(ch.Target, p)] = true
+		}
+	}
+	return len(targets) > 1
+}
+
+// hasCaseTwin: another key differs from k by case only.
+func hasCaseTwin(k string, keys []string) bool {
+	for _, o := range keys {
+		if o != k && strings.EqualFold(o, k) {
+			return true
+		}
+	}
+	return false
+}
+
+// c13GenConnectRedeclared: an outbound channel name declared at two or three role levels of one branch
+// with different (all valid) targets; the nearest declaration's target is the one that must be wired.
+// Variants cycle: aggregator -> task role (the template declares the channel too), two aggregator levels,
+// three levels; siblings that do not redeclare keep the inherited target.
+func c13GenConnectRedeclared(sc c13Scenario, r *rand.Rand) c13Scenario {
+	wf := sc.Root.Name
+	root := sc.Root
+	sc.Hosts = 2 + r.Intn(2)
+	host := func() string { return fmt.Sprintf("host%d", 1+r.Intn(sc.Hosts)) }
+	mk := func(name, h string) *roleSpec {
+		return &roleSpec{Name: name, Critical: true, Constraints: []kv{{"machine_id", h}},
+			Task: &tplSpec{Name: wf + "-" + name, Mode: pick(r, "fairmq", "direct")}}
+	}
+	in := func(name string, alias string) chanSpec {
+		ch := chanSpec{Name: name, Type: c13Types[r.Intn(4)], Transport: []string{"zeromq", "nanomsg", "shmem", "default"}[r.Intn(4)], Global: alias}
+		if r.Intn(4) == 0 {
+			ch.Addressing = "ipc"
+		}
+		return ch
+	}
+	// the providers: three distinct inbound channels on one or two tasks
+	pa, pb := mk("pa", "host1"), mk("pb", "host2")
+	pa.Task.Bind = []chanSpec{in("ina", ""), in("inb", "rcalias")}
+	pb.Bind = []chanSpec{in("inc", "")}
+	tA, tB, tC := wf+".pa:ina", "::rcalias", wf+".pb:inc"
+	if r.Intn(2) == 0 {
+		tB = wf + ".pa:inb"
+	}
+	m := &roleSpec{Name: "m1"}
+	g := &roleSpec{Name: "g1"}
+	ta, tb, td := mk("ta", host()), mk("tb", host()), mk("td", host())
+	m.Children = []*roleSpec{g, td}
+	g.Children = []*roleSpec{ta, tb}
+	root.Children = []*roleSpec{pa, pb, m}
+	rc := func(target string) chanSpec {
+		return chanSpec{Name: "rc", Type: c13Types[r.Intn(4)], Transport: c13Transports[r.Intn(5)], Target: target}
+	}
+	variant := (sc.Index / len(c13Flavours)) % 3
+	switch variant {
+	case 0: // aggregator -> task role, the template declares the channel as well
+		g.Connect = []chanSpec{rc(tA)}
+		ta.Connect = []chanSpec{rc(tB)}
+		ta.Task.Connect = []chanSpec{{Name: "rc", Type: "pull", Transport: "zeromq"}}
+		sc.Notes = append(sc.Notes, "connect 'rc': g1 -> "+tA+", redeclared by ta -> "+tB+"; tb keeps g1's")
+	case 1: // two aggregator levels
+		m.Connect = []chanSpec{rc(tA)}
+		g.Connect = []chanSpec{rc(tC)}
+		sc.Notes = append(sc.Notes, "connect 'rc': m1 -> "+tA+", redeclared by g1 -> "+tC+"; ta and tb inherit g1's, td keeps m1's")
+	case 2: // three levels
+		m.Connect = []chanSpec{rc(tA)}
+		g.Connect = []chanSpec{rc(tB)}
+		tb.Connect = []chanSpec{rc(tC)}
+		sc.Notes = append(sc.Notes, "connect 'rc': m1 -> "+tA+", g1 -> "+tB+", tb -> "+tC+"; ta inherits g1's, td keeps m1's")
+	}
+	// an unrelated second channel so that the tasks have something else to merge
+	ta.Connect = append(ta.Connect, chanSpec{Name: "other", Type: "sub", Target: tC})
+	root.link(nil)
+	return sc
+}
+
+// c13GenCaseCollision: role names, channel names and global aliases that differ by case only, every one of
+// them targeted exactly once by a consumer: each outbound channel must get exactly its own inbound's address.
+func c13GenCaseCollision(sc c13Scenario, r *rand.Rand) c13Scenario {
+	wf := sc.Root.Name
+	root := sc.Root
+	sc.Hosts = 2
+	mk := func(name, h string) *roleSpec {
+		return &roleSpec{Name: name, Critical: true, Constraints: []kv{{"machine_id", h}},
+			Task: &tplSpec{Name: wf + "-" + name, Mode: pick(r, "fairmq", "direct")}}
+	}
+	tr4 := []string{"zeromq", "nanomsg", "shmem", "default"}
+	in := func(name, alias string, i int) chanSpec {
+		return chanSpec{Name: name, Type: c13Types[r.Intn(4)], Transport: tr4[i%4], Global: alias}
+	}
+	lower, upper := mk("proc", "host1"), mk("Proc", pick(r, "host1", "host2"))
+	lower.Task.Bind = []chanSpec{in("out", "readout", 0), in("OUT", "", 1)}
+	upper.Bind = []chanSpec{in("out", "Readout", 2), in("OUT", "", 3)}
+	if r.Intn(2) == 0 { // the aliases on the other pair of channels
+		lower.Task.Bind[0].Global, lower.Task.Bind[1].Global = "", "readout"
+	}
+	cons := mk("cons", "host2")
+	targets := []string{wf + ".proc:out", wf + ".proc:OUT", wf + ".Proc:out", wf + ".Proc:OUT", "::readout", "::Readout"}
+	r.Shuffle(len(targets), func(i, j int) { targets[i], targets[j] = targets[j], targets[i] })
+	names := []string{"snk", "SNK", "o2", "o3", "o4", "o5"}
+	for i, t := range targets {
+		cons.Connect = append(cons.Connect, chanSpec{Name: names[i], Type: c13Types[r.Intn(4)], Target: t})
+	}
+	root.Children = []*roleSpec{lower, upper, cons}
+	if r.Intn(2) == 0 {
+		root.Children = []*roleSpec{upper, cons, lower}
+	}
+	sc.Notes = append(sc.Notes, "roles proc/Proc, channels out/OUT, aliases ::readout/::Readout; cons targets each of the six exactly")
+	root.link(nil)
+	return sc
 }
